@@ -166,6 +166,8 @@ class Engine(ExprMixin, StmtMixin):
         key = f"{m.relpath}::{name}"
 
         def fn(args, kwargs, st, eng):
+            if eng.spec_depth:
+                return eng.pure_call(fi, None, args, kwargs, st)
             c = eng.contracts.get(key)
             if c is not None and not c.get("inline"):
                 return eng.call_contract(c, fi, None, args, kwargs, st)
@@ -241,6 +243,8 @@ class Engine(ExprMixin, StmtMixin):
         key = f"{fi.module.relpath}::{fi.qual}"
 
         def fn(args, kwargs, s, eng, fi=fi, key=key):
+            if eng.spec_depth:
+                return eng.pure_call(fi, ref, args, kwargs, s)
             c = eng.contracts.get(key)
             if c is not None and not c.get("inline"):
                 return eng.call_contract(c, fi, ref, args, kwargs, s)
@@ -291,14 +295,18 @@ class Engine(ExprMixin, StmtMixin):
                           z3.ForAll([k], z3.Implies(z3.And(0 <= k, k < r), z3.Not(veq(sq.elem(k), x)))))
                 return [(st, VInt(r))]
             if attr == "tolist":
-                return [(st, eng.fresh_list(sq, st))]
+                return [(st, eng.fresh_list(VSeq(sq.len, sq.elem, sq.etype, sq.concrete), st))]
+            if attr == "numpy":
+                r = VSeq(sq.len, sq.elem, sq.etype)
+                r.kind = z3.IntVal(2)
+                return [(st, r)]
             if attr == "repeat_interleave":
                 r = _e_to_int(eng.deref(kwargs.get("repeats", args[0] if args else None), st))
                 eng.safety(st, "repeat_interleave:positive", r > 0, None, "repeats must be positive in the model", kind="model")
                 return [(st, VSeq(sq.len * r, lambda i: sq.elem(i / r), sq.etype))]
             if attr == "item":
                 return [(st, sq.elem(z3.IntVal(0)))]
-            if attr in ("long", "clone", "numpy", "int", "contiguous"):
+            if attr in ("long", "clone", "int", "contiguous"):
                 return [(st, sq)]
             if attr == "squeeze":
                 return [(st, sq)]
@@ -405,6 +413,26 @@ class Engine(ExprMixin, StmtMixin):
             else:
                 raise Unsupported(f"outcome {oc[0]} escapes function {fi.qual}")
         return out
+
+    def pure_call(self, fi, self_val, args, kwargs, st):
+        """a repo function called from a spec expression: executed on a scratch copy of the state (no obligations,
+        no effects on the real state); forked results are joined"""
+        scratch = st.fork()
+        saved_env, self.spec_env = self.spec_env, []
+        try:
+            res = self.inline(fi, self_val, args, kwargs, scratch)
+        finally:
+            self.spec_env = saved_env
+        self.pending_raises = []
+        if len(res) == 1:
+            v = res[0][1]
+            return [(st, self.deref(v, res[0][0]) if isinstance(v, VRef) and isinstance(res[0][0].heap.get(v.oid), VSeq) else v)]
+        for s_, v in res:
+            s_.locals = dict(s_.locals, __join=self.deref(v, s_) if isinstance(v, VRef) and isinstance(s_.heap.get(v.oid), VSeq) else v)
+        m = merge_states([s_ for s_, _ in res])
+        if m is None:
+            raise SpecError(f"cannot join the paths of {fi.qual} called from a spec")
+        return [(st, m.locals["__join"])]
 
     def construct(self, cls, args, kwargs, st, node):
         clsid = cls.name
@@ -571,6 +599,11 @@ class Engine(ExprMixin, StmtMixin):
         for p in pnames:
             if p == "self" and fi.cls:
                 continue
+            if p in c.get("concrete", {}):
+                cv = c["concrete"][p]
+                st.locals[p] = (VStr(cv) if isinstance(cv, str) else VBool(cv) if isinstance(cv, bool) else
+                                VInt(cv) if isinstance(cv, int) else VReal(cv) if isinstance(cv, float) else NONEV)
+                continue
             if p not in ptypes:
                 raise SpecError(f"{target}: parameter {p} has no type in the sidecar")
             st.locals[p] = self.make_value(ptypes[p], p, st)
@@ -607,10 +640,13 @@ class Engine(ExprMixin, StmtMixin):
                                            "precondition is satisfiable (must be SAT)", func=self.top_func))
         results = self.exec_block(fi.node.body, st)
         n_normal = 0
+        cover_pc = None
         for s, oc in results:
             if oc[0] in (RET, NEXT):
                 rv = oc[1] if oc[0] == RET else NONEV
                 n_normal += 1
+                if cover_pc is None:
+                    cover_pc = list(s.pc)
                 for i, (var, lo, hi, prop) in enumerate(c.get("post_inductions", [])):
                     self.induction(s, f"post-induction{i}", var, lo, hi, prop, {"result": rv}, fi.node)
                 for i, e in enumerate(c.get("ensures", [])):
@@ -626,10 +662,8 @@ class Engine(ExprMixin, StmtMixin):
             else:
                 raise Unsupported(f"outcome {oc[0]} escapes {target}")
         # canary: something that must be refutable on some reachable normal path (guards against an unsound pc)
-        for s, oc in results:
-            if oc[0] in (RET, NEXT):
-                self.obligations.append(Obligation(f"{self.top_func}:cover:normal-return", "cover", s.pc,
-                                                   z3.BoolVal(False), "", "a normal return is reachable (must be SAT)",
-                                                   func=self.top_func))
-                break
+        if cover_pc is not None:
+            self.obligations.append(Obligation(f"{self.top_func}:cover:normal-return", "cover", cover_pc,
+                                               z3.BoolVal(False), "", "a normal return is reachable (must be SAT)",
+                                               func=self.top_func))
         return len(self.obligations) - n_before
